@@ -322,3 +322,85 @@ Example C09_concrete_paths :
   c09_case_path false sc (FDir (catalog_entries 2 [EOther; EPatchNamed])) (ORet RSame true) false true HNew false = 2048 /\
   c09_case_path false scn (FDir (catalog_entries 2 [EOther; EPatchNamed])) ORaise true true HPre true = 0.
 Proof. vm_compute. repeat split; reflexivity. Qed.
+
+(* ---------- columns of independent length (the datasets of an HDF5 file) ---------- *)
+(* the comparison of the column lengths before anything starts is complete: whatever the lengths (which column is
+   the odd one, longer or shorter, by how much), the chunk size, the path, the mode and the algorithm behind it -
+   columns of unequal length raise, no execution blocks, and the path is what it was at every moment *)
+Theorem C09_unequal_columns_raise_up_front : forall lens cs p ow ea ec, all_eq lens = false ->
+  let sc := cols_scen (SrcUpFront lens cs) p ow ea ec in
+  cols_unequal (SrcUpFront lens cs) = true /\ must_raise sc = true /\
+  (forall v, seq_run v sc = (Raise, p)) /\
+  (forall v s, reach v sc s -> dk s = p) /\
+  (forall v s, reach v sc s -> final s = true -> outcome_of s = Raise) /\
+  (forall v s, reach v sc s -> ~ stuck v sc s).
+Proof. exact upfront_check_complete. Qed.
+Print Assumptions C09_unequal_columns_raise_up_front.
+
+(* a reader that leaves the comparison to DataChunk.create (which sees the slices of one chunk) lets through
+   EXACTLY the columns that are each as long as the right ascension, or longer while the record count is an exact
+   multiple of the chunk size (the whole input in one chunk included) ... *)
+Theorem C09_chunk_check_misses_iff : forall n others cs, 0 < cs ->
+  first_bad (slices_of (n :: others) cs) = None <->
+  Forall (fun L => L = n \/ (n < L /\ n mod cs = 0)) others.
+Proof. exact chunk_check_misses_iff. Qed.
+Print Assumptions C09_chunk_check_misses_iff.
+
+(* ... runs on them the scenario of the table cut down to the length of the right ascension ... *)
+Theorem C09_chunk_check_only_truncates : forall n others cs p ow ea ec, 0 < cs -> slips_through n cs others ->
+  cols_scen (chunk_check_only (n :: others) cs) p ow ea ec =
+  cols_scen (SrcUpFront (n :: map (fun _ => n) others) cs) p ow ea ec.
+Proof. exact chunk_check_only_truncates. Qed.
+Print Assumptions C09_chunk_check_only_truncates.
+
+(* ... and catches every other pair of unequal columns (a shorter one; a longer one when the last chunk is partial) *)
+Theorem C09_chunk_check_catches : forall n others cs p ow ea ec, 0 < cs -> ~ slips_through n cs others ->
+  must_raise (cols_scen (chunk_check_only (n :: others) cs) p ow ea ec) = true.
+Proof. exact chunk_check_catches. Qed.
+Print Assumptions C09_chunk_check_catches.
+
+(* so the per-chunk comparison alone does not meet the statement: for all such columns of unequal length the
+   call has to raise, yet the repaired pipeline behind that reader returns a catalog, sequentially and in every
+   interleaving of the parallel mode, and no returned observation satisfies the statement *)
+Theorem C09_chunk_check_alone_returns : forall n others cs, 0 < cs -> 0 < n -> slips_through n cs others ->
+  all_eq (n :: others) = false ->
+  let judged_sc := cols_scen (SrcUpFront (n :: others) cs) TAbsent false false false in
+  let run_sc := cols_scen (chunk_check_only (n :: others) cs) TAbsent false false false in
+  must_raise judged_sc = true /\
+  fst (seq_run v_fix run_sc) = Return (input run_sc, true) /\
+  (forall s, reach v_fix run_sc s -> final s = true -> outcome_of s = Return (input run_sc, true)) /\
+  (forall k c untouched opens, spec_ok judged_sc (ORet k c) untouched opens = false).
+Proof. exact chunk_check_alone_returns. Qed.
+Print Assumptions C09_chunk_check_alone_returns.
+
+Theorem C09_chunk_check_alone_refuted : exists lens cs,
+  cols_unequal (SrcUpFront lens cs) = true /\
+  cols_unequal (chunk_check_only lens cs) = false /\
+  must_raise (cols_scen (SrcUpFront lens cs) TAbsent false false false) = true /\
+  seq_run v_fix (cols_scen (chunk_check_only lens cs) TAbsent false false false) = (Return ([1; 2], true), TDir false [1; 2] true) /\
+  par_all v_fix (cols_scen (chunk_check_only lens cs) TAbsent false false false) = Some (Return ([1; 2], true), TDir false [1; 2] true).
+Proof. exact chunk_check_alone_refuted. Qed.
+Print Assumptions C09_chunk_check_alone_refuted.
+
+(* non-vacuity: 12 records in chunks of 4, the second of four datasets has 17 entries.  Every chunk shows slices of
+   equal length; with 14 records in chunks of 5 the last chunk gives it away, a dataset of 7 entries the second one;
+   7 records in one chunk of 7 hide an eighth entry, a chunk size of 10 does not.  A catalog returned for the 12 / 17
+   file fails the statement (flags 1, 3) and follows no model of the scenario (flags 0, 6, 7, 8): 459, on a fresh path
+   and over a valid catalog alike; raising with everything untouched is fine.  The slices of a frame whose middle
+   chunk is one row short in one column: the pipeline raises there, the first chunk stays on disk and nothing opens
+   (the observation follows `fix` only: 64); with a first pass over the reader nothing is touched at all. *)
+Example C09_concrete_columns :
+  let hdf := SrcUpFront [12; 17; 12; 12] 4 in
+  slices_of [12; 17; 12; 12] 4 = [[4; 4; 4; 4]; [4; 4; 4; 4]; [4; 4; 4; 4]] /\
+  first_bad (slices_of [14; 17; 14] 5) = Some 2 /\
+  slices_of [12; 7; 12] 4 = [[4; 4; 4]; [4; 3; 4]; [4; 0; 4]] /\
+  first_bad (slices_of [7; 8] 7) = None /\ first_bad (slices_of [7; 8] 10) = Some 0 /\
+  c09_case_cols false hdf false false false FAbsent (ORet RSame true) false true HNew true = 1 + 2 + 8 + 64 + 128 + 256 /\
+  c09_case_cols true hdf true false false (FDir (catalog_entries 2 [])) (ORet RSame true) false true HNew true = 1 + 2 + 8 + 64 + 128 + 256 /\
+  c09_case_cols false hdf false false false FAbsent ORaise true false HClosed true = 0 /\
+  c09_case_cols true hdf true false false (FDir (catalog_entries 2 [])) ORaise true true HPre true = 0 /\
+  c09_case_cols false (chunk_check_only [12; 17; 12; 12] 4) false false false FAbsent (ORet RSame true) false true HNew true = 0 /\
+  c09_case_cols false (SrcUpFront [12; 12; 12] 4) false false false FAbsent (ORet RSame true) false true HNew true = 0 /\
+  c09_case_cols false (SrcPerChunk [[5; 5; 5]; [5; 4; 5]; [4; 4; 4]] false) false false false FAbsent ORaise false false HClosed true = 64 /\
+  c09_case_cols false (SrcPerChunk [[5; 5; 5]; [5; 4; 5]; [4; 4; 4]] true) false false false FAbsent ORaise true false HClosed true = 0.
+Proof. vm_compute. repeat split; reflexivity. Qed.
